@@ -545,6 +545,9 @@ def set_common_op_fields(npu_op: NpuBlockOperation, cmd: NpuStripe, arch: Archit
     if cmd.weight_tensor is not None:
         npu_op.weights, npu_op.biases = create_weights(cmd.weight_tensor, cmd.weight_box, cmd.scale_tensor, arch)
     npu_op.activation = create_npu_activation(op, use_zero_point_0(ps, cmd.ofm_tensor, False))
+    if getattr(cmd, "lut_index", None) is not None and npu_op.activation.op_type == NpuActivationOp.TABLE_LOOKUP:
+        # the slot the table occupies when this stripe is executed (see lut.optimize_high_level_cmd_stream)
+        npu_op.activation.lookup_table_index = cmd.lut_index
     npu_op.fused_quantize = any(op.type == Op.Quantize or op.original_type == Op.Quantize for op in ps.ops)
     npu_op.rounding_mode = get_rounding_mode(op, npu_op.fused_quantize)
     npu_op.block_config = NpuShape3D(height=ps.block_config[0], width=ps.block_config[1], depth=ps.block_config[3])
@@ -689,6 +692,9 @@ def create_dma_op(cmd: DMA, arch: ArchitectureFeatures) -> NpuDmaOperation:
     else:
         src_addr = cmd.in_tensor.address_for_coordinate(cmd.box.start_coord)
         dest_addr = cmd.out_tensor.address_for_coordinate(cmd.box.start_coord)
+        if cmd.out_tensor.purpose == TensorPurpose.LUT and getattr(cmd, "lut_address", None) is not None:
+            # the slot chosen for this copy of the table (the tensor's address is that of the most recent copy)
+            dest_addr = cmd.lut_address
         # DMA must use 16 bytes alignment (tensors are always aligned but the sz calculation uses actual size)
         sz = round_up(cmd.in_tensor.address_for_coordinate(cmd.box.end_coord, is_top_box=True) - src_addr, 16)
     src = NpuAddressRange(src_region, int(src_addr), int(sz))
